@@ -555,6 +555,55 @@ func (x *c12exec) run(e common.Env, p *common.Part) *c12fail {
 				}
 			}
 			p.Count("held_windows", 1)
+		case "keygen-reuse-at-once":
+			// every node calls KeyGen again the moment its first call returned; the first session's continuations are held right
+			// after they handed their results over and are let go a PRNG moment (0..12 ms) after the last of them got there, i.e.
+			// while the second key generation is being set up: whatever a continuation still does on its way out must not touch
+			// what the next session has registered
+			x.setHold("dkg.afterResult")
+			ctx, cancel := context.WithTimeout(context.Background(), x.dl(6000))
+			type two struct{ first, second callRes }
+			var mu sync.Mutex
+			both := map[uint16]two{}
+			var wg sync.WaitGroup
+			relDone := make(chan struct{})
+			delay := time.Duration(op.Arg*300) * time.Microsecond
+			go func() {
+				defer close(relDone)
+				x.waitParked(len(x.nodes), x.dl(5000))
+				time.Sleep(delay)
+				x.release()
+			}()
+			for _, u := range x.nodes {
+				u := u
+				wg.Add(1)
+				go func() {
+					defer wg.Done()
+					o1, e1 := x.c.Schemes[u].KeyGen(ctx, len(x.nodes), x.c.Cfg.Threshold+1)
+					var o2 []byte
+					var e2 error
+					if e1 == nil {
+						o2, e2 = x.c.Schemes[u].KeyGen(ctx, len(x.nodes), x.c.Cfg.Threshold+1)
+					}
+					mu.Lock()
+					both[u] = two{callRes{u, o1, e1}, callRes{u, o2, e2}}
+					mu.Unlock()
+				}()
+			}
+			wg.Wait()
+			cancel()
+			x.release()
+			<-relDone
+			for u, b := range both {
+				if b.first.err != nil {
+					return fail("keygen-refused-or-failed", fmt.Sprintf("first KeyGen failed at node %d: %v", u, b.first.err), timedOut(b.first.err))
+				}
+				if b.second.err != nil {
+					return fail("reuse-refused", fmt.Sprintf("a KeyGen issued at node %d the moment the previous KeyGen had returned failed: %v", u, b.second.err), timedOut(b.second.err))
+				}
+			}
+			p.Count("held_windows", 1)
+			time.Sleep(3 * time.Millisecond)
 		case "keygen-and-sign-at-once":
 			// a key generation among all nodes and a signing session run at the same time on the same scheme objects
 			s := x.signers(rng)
@@ -858,7 +907,7 @@ func genC12(rng *rand.Rand, idx int, e common.Env) c12hist {
 			}
 		} else {
 			kinds = []string{"keygen-ok", "keygen-with-foreign-traffic", "keygen-duplicate", "keygen-missing-caller", "keygen-cancel", "keygen-cancel-held", "keygen-second-sync-lost", "keygen-reissued-while-returning", "sign-ok", "sign-ok", "sign-too-few", "sign-cancel", "sign-cancel-held",
-				"sign-reuse-at-once", "sign-two-topics", "sign-duplicate", "sign-duplicate-racing", "late-replay", "sign-with-foreign-traffic", "keygen-and-sign-at-once"}
+				"sign-reuse-at-once", "sign-two-topics", "sign-duplicate", "sign-duplicate-racing", "late-replay", "sign-with-foreign-traffic", "keygen-and-sign-at-once", "keygen-reuse-at-once"}
 			if h.Mode == "loud" && h.N > 3 && h.Idx%2 == 0 {
 				kinds = append(kinds, "sign-too-many", "sign-too-many")
 			}
